@@ -532,8 +532,17 @@ def run_c03(prop, tier, seed):
     if unconfirmed:
         ev['problems'].extend(unconfirmed[:5])
     prologue_cov = c03_prologue_part(prop, tier, ev)
+    # control flow: bytecode paths vs a reference interpreter of the documented semantics (bytecode/flow.py)
+    import flow
+    fl = flow.run_flow(prop, tier, seed, run_tool)
+    ev['violations'].extend(fl['violations'][:max(0, 5 - len(ev['violations']))])
+    ev['problems'].extend(fl['problems'])
+    flow_cov = fl['coverage']
+    log('[%s] engine B control flow: %d programs, %d bytecode paths, %d queries: unsat=%d sat=%d (confirmed natively %d); reference validated on %d native renders (%d mismatches)' % (
+        prop, flow_cov.get('programs', 0), flow_cov.get('bytecode_paths', 0), flow_cov.get('queries', 0), flow_cov.get('unsat', 0), flow_cov.get('sat', 0),
+        flow_cov.get('sat_confirmed_natively', 0), flow_cov.get('native_validation_renders', 0), flow_cov.get('native_validation_mismatches', 0)))
     log('[%s] engine B closures: %d programs, %d macro-body queries: unsat=%d sat=%d (confirmed natively %d), z3 %.1fs' % (prop, len(fam), nq, nun, nsat, nconf, z3s))
-    ev['coverage'] = dict(programs=len(fam), queries=nq, unsat=nun, sat=nsat, sat_confirmed_natively=nconf, z3_seconds=round(z3s, 1), prologues=prologue_cov,
+    ev['coverage'] = dict(programs=len(fam), queries=nq, unsat=nun, sat=nsat, sat_confirmed_natively=nconf, z3_seconds=round(z3s, 1), prologues=prologue_cov, control_flow=flow_cov,
                           family='macro family: %d prefixes x %d signatures x %d bodies + call blocks (%d signatures x %d bodies); every branch outcome symbolic, loops unrolled %d' % (
                               len(G.MACRO_PREFIX), len(G.MACRO_SIGS), len(G.MACRO_BODIES), len(G.CALLER_SIGS), len(G.CALLER_BODIES), unroll),
                           samples=samples, wall_s=round(time.time() - t0, 1))
@@ -593,10 +602,16 @@ def c03_prologue_part(prop, tier, ev):
 
 def replay_c03(path):
     d = json.load(open(path))
+    if d.get('kind') == 'flow':
+        import flow
+        return flow.replay_flow(path, run_tool)
     o = run_tool('render', [dict(src=d['program'], ctx=d['native']['context'])])[0]
     print(json.dumps(o))
     if d.get('kind') == 'prologue':
         return not ('ok' in o and all(e in o['ok'] for e in d['native']['expected_fragments']))
+    if d.get('kind') == 'flow':
+        import flow
+        return flow.replay_flow(path, run_tool)
     return 'panic' in o or ('ok' in o and G.closure_oracle(d.get('prefix'), d['native']['context'], o['ok']) is not None)
 
 
